@@ -98,6 +98,11 @@ static void viol(const char *prop, const std::string &assertion, const std::stri
 // ---------------------------------------------------------------------------------------------
 // silent log handler: the SDK's diagnostics are counted, not printed
 // ---------------------------------------------------------------------------------------------
+// set by the controller while it makes calls on a processor whose Shutdown has returned: the SDK's own
+// "queue is full - dropping" diagnostic then is an observable effect of a call that must have none
+static vf::raw_atomic<int> g_after_shutdown{0};
+static vf::raw_atomic<uint64_t> g_late_queue_full_warnings{0};
+
 class CountingLogHandler : public sdkcommon::internal_log::LogHandler
 {
 public:
@@ -108,6 +113,8 @@ public:
     // the periodic reader's own diagnostic is an observation: this collection cycle was cancelled
     if (level == sdkcommon::internal_log::LogLevel::Error && msg && strstr(msg, "and timed out"))
       EventLog::get().add(kCollectCancelled);
+    if (g_after_shutdown.load(std::memory_order_relaxed) && msg && strstr(msg, "queue is full"))
+      g_late_queue_full_warnings.fetch_add(1, std::memory_order_relaxed);
   }
   vf::raw_atomic<uint64_t> counts[8] = {};
 };
@@ -215,6 +222,10 @@ class TaggedSpan final : public sdktrace::Recordable
 {
 public:
   uint64_t p = ~0ull, s = ~0ull;
+  // what the SDK attached; dereferenced by the exporter at Export time, as a real exporter would: a resource or
+  // instrumentation scope that does not outlive the records queued for export is a sanitizer report
+  const opentelemetry::sdk::resource::Resource *res                              = nullptr;
+  const opentelemetry::sdk::instrumentationscope::InstrumentationScope *scope = nullptr;
   TaggedSpan() = default;
   TaggedSpan(uint64_t pp, uint64_t ss) : p(pp), s(ss) {}
   void SetIdentity(const trace_api::SpanContext &, trace_api::SpanId) noexcept override {}
@@ -224,11 +235,16 @@ public:
   void SetStatus(trace_api::StatusCode, nostd::string_view) noexcept override {}
   void SetName(nostd::string_view name) noexcept override { parse_tag(name, p, s); }
   void SetSpanKind(trace_api::SpanKind) noexcept override {}
-  void SetResource(const opentelemetry::sdk::resource::Resource &) noexcept override {}
+  void SetResource(const opentelemetry::sdk::resource::Resource &r) noexcept override { res = &r; }
   void SetStartTime(otcommon::SystemTimestamp) noexcept override {}
   void SetDuration(std::chrono::nanoseconds) noexcept override {}
-  void SetInstrumentationScope(const opentelemetry::sdk::instrumentationscope::InstrumentationScope &) noexcept override {}
+  void SetInstrumentationScope(const opentelemetry::sdk::instrumentationscope::InstrumentationScope &sc) noexcept override
+  {
+    scope = &sc;
+  }
 };
+
+static vf::raw_atomic<uint64_t> g_touch{0};
 
 class TaggedLog final : public sdklogs::Recordable
 {
@@ -267,6 +283,10 @@ public:
       auto *t = static_cast<TaggedSpan *>(batch[i].get());
       p       = t ? t->p : ~1ull;
       q       = t ? t->s : ~1ull;
+      if (t && t->scope)
+        g_touch.fetch_add(t->scope->GetName().size() + t->scope->GetVersion().size(), std::memory_order_relaxed);
+      if (t && t->res)
+        g_touch.fetch_add(t->res->GetAttributes().size(), std::memory_order_relaxed);
     });
   }
   bool ForceFlush(std::chrono::microseconds) noexcept override { return do_exp_flush(*s_); }
@@ -444,7 +464,7 @@ struct SimpleLogSubject : Subject
 struct TracerProviderSubject : Subject
 {
   std::unique_ptr<sdktrace::TracerProvider> prov;
-  nostd::shared_ptr<trace_api::Tracer> tracer;
+  nostd::shared_ptr<trace_api::Tracer> tracer, tracer2;
   std::vector<std::shared_ptr<Script>> decoys;
   TracerProviderSubject(std::shared_ptr<Script> sc, size_t q, size_t b, std::chrono::milliseconds d, int extra,
                         uint64_t seed)
@@ -485,20 +505,22 @@ struct TracerProviderSubject : Subject
       }
     }
     prov.reset(new sdktrace::TracerProvider(std::move(procs)));
-    tracer = prov->GetTracer("e2");
+    tracer  = prov->GetTracer("e2");
+    tracer2 = prov->GetTracer("e2-other", "1.2");
   }
   void produce(uint64_t p, uint64_t s) override
   {
     char nm[48];
     snprintf(nm, sizeof nm, "%llu.%llu", static_cast<unsigned long long>(p), static_cast<unsigned long long>(s));
-    auto span = tracer->StartSpan(nm);
+    auto span = ((p + s) & 1 ? tracer2 : tracer)->StartSpan(nm);
     span->End();
   }
   bool flush(std::chrono::microseconds t) override { return prov->ForceFlush(t); }
   bool shutdown(std::chrono::microseconds t) override { return prov->Shutdown(t); }
   void destroy() override
   {
-    tracer = nostd::shared_ptr<trace_api::Tracer>(nullptr);
+    tracer  = nostd::shared_ptr<trace_api::Tracer>(nullptr);
+    tracer2 = nostd::shared_ptr<trace_api::Tracer>(nullptr);
     prov.reset();
   }
   const char *name() const override { return "tracer-provider"; }
@@ -1518,10 +1540,24 @@ static void run_history(uint64_t seed, bool thorough)
       if (c.post_shutdown_ops)
       {
         vf::WatchdogScope wd2(std::string("post-shutdown-ops:") + S.name(), 60);
+        g_late_queue_full_warnings.store(0, std::memory_order_relaxed);
+        g_after_shutdown.store(1, std::memory_order_relaxed);
         logged_produce(S, 0, next_seq[0]++);
         logged_flush(S, FlushSpec{static_cast<int>(r.below(5))});
         logged_shutdown(S, 0);
         logged_produce(S, 0, next_seq[0]++);
+        // more late calls than the queue could hold: "later OnEnd/OnEmit calls return promptly without effect"
+        if (c.queue <= 64 && S.is_batch())
+        {
+          for (size_t i = 0; i < c.queue + 3; ++i)
+            logged_produce(S, 0, next_seq[0]++);
+          R.count("post_shutdown_bursts");
+        }
+        g_after_shutdown.store(0, std::memory_order_relaxed);
+        if (uint64_t w = g_late_queue_full_warnings.load(std::memory_order_relaxed))
+          viol("C02", "post-shutdown-call-without-effect", std::string(S.name()) + ":queue-full-warning",
+               std::to_string(w) + " 'queue is full' diagnostics were caused by OnEnd/OnEmit calls made after Shutdown had "
+               "returned: the calls still enqueue; " + c.describe());
         R.count("post_shutdown_op_sets");
       }
       // destruction after explicit shutdown must not touch the exporter again
